@@ -312,6 +312,10 @@ namespace bloch::runtime {
         std::optional<int> argumentsConversionCost(const std::vector<RuntimeTypeInfo>& expected,
                                                    const std::vector<Value>& actual) const;
         bool valueMatchesType(const RuntimeTypeInfo& expected, const Value& actual) const;
+        // A value bound to a declared slot takes that slot's static type: int widens to long and
+        // an object reference is viewed through the declared class.
+        Value bindToDeclared(Type* declared, Value v) const;
+        Value bindToDeclared(const RuntimeTypeInfo& declared, Value v) const;
         bool argumentsMatchConstructor(const std::vector<Value>& args,
                                        const RuntimeConstructor& candidate) const;
         RuntimeMethod* findMethod(RuntimeClass* cls, const std::string& name,
